@@ -55,8 +55,8 @@ func c02VerifierFacts(c *Ctx, rule string, report bool) paaVerifierFacts {
 	}
 	if !report {
 		// only extract the issuer constant
-		for _, ci := range callsTo(fn, "("+joseJWT+".Claims).Validate") {
-			if iss, _, _, ok := expectedLiteral(arg(ci, 0)); ok && iss != nil {
+		for _, st := range c.findSteps(fn, "("+joseJWT+".Claims).Validate") {
+			if iss, _, _, ok := c.expectedLiteralR(st, arg(st.call, 0)); ok && iss != nil {
 				if s, ok := constString(iss); ok {
 					facts.issuer, facts.ok = s, true
 				}
@@ -66,13 +66,14 @@ func c02VerifierFacts(c *Ctx, rule string, report bool) paaVerifierFacts {
 	}
 
 	// step 1: ParseSigned(tokenString, {HS256})
-	parses := callsTo(fn, joseJWT+".ParseSigned")
+	parses := c.findSteps(fn, joseJWT+".ParseSigned")
 	if len(parses) != 1 {
 		c.Bad(rule, key+" ParseSigned", fn.Pos(), "expected exactly one jwt.ParseSigned call, found %d", len(parses))
 		return facts
 	}
-	parse := parses[0]
-	if p, ok := arg(parse, 0).(*ssa.Parameter); !ok || p != fn.Params[1] {
+	parseS := parses[0]
+	parse := parseS.call
+	if p, ok := c.normIn(parseS, arg(parse, 0)).(*ssa.Parameter); !ok || p != fn.Params[1] {
 		c.Bad(rule, key+" ParseSigned.arg0", parse.Pos(), "the string parsed is not the cookie parameter")
 	} else {
 		c.OK(rule, key+" ParseSigned.arg0", parse.Pos(), "parses the cookie parameter itself")
@@ -84,24 +85,25 @@ func c02VerifierFacts(c *Ctx, rule string, report bool) paaVerifierFacts {
 	}
 
 	// step 2: token.Claims(SigningKey, &standard, &custom)
-	claims := callsTo(fn, "(*"+joseJWT+".JSONWebToken).Claims")
+	claims := c.findSteps(fn, "(*"+joseJWT+".JSONWebToken).Claims")
 	if len(claims) != 1 {
 		c.Bad(rule, key+" Claims", fn.Pos(), "expected exactly one (*JSONWebToken).Claims call, found %d", len(claims))
 		return facts
 	}
-	cl := claims[0]
-	if strip(recvOf(cl)) != resultOf(parse, 0) {
+	clS := claims[0]
+	cl := clS.call
+	if c.normIn(clS, recvOf(cl)) != resultOf(parse, 0) {
 		c.Bad(rule, key+" Claims.recv", cl.Pos(), "Claims is not called on the token returned by ParseSigned")
 	} else {
 		c.OK(rule, key+" Claims.recv", cl.Pos(), "called on the parsed token")
 	}
-	if !isLoadOfGlobal(arg(cl, 0), signingKey) {
+	if !isLoadOfGlobal(c.upIn(clS, arg(cl, 0)), signingKey) {
 		c.Bad(rule, key+" Claims.key", cl.Pos(), "the verification key is not security.SigningKey")
 	} else {
 		c.OK(rule, key+" Claims.key", cl.Pos(), "key is a load of security.SigningKey")
 	}
 	var standard, custom *ssa.Alloc
-	for _, al := range variadicAllocs(arg(cl, 1)) {
+	for _, al := range c.variadicAllocsUp(clS, arg(cl, 1)) {
 		et := al.Type().Underlying().(*types.Pointer).Elem()
 		if typeIs(et, joseJWT, "Claims") {
 			standard = al
@@ -116,20 +118,22 @@ func c02VerifierFacts(c *Ctx, rule string, report bool) paaVerifierFacts {
 	c.OK(rule, key+" Claims.dests", cl.Pos(), "fills jwt.Claims and customClaims locals")
 
 	// step 3: standard.Validate(Expected{Issuer: const, Time: time.Now()})
-	vals := callsTo(fn, "("+joseJWT+".Claims).Validate")
+	vals := c.findSteps(fn, "("+joseJWT+".Claims).Validate")
 	if len(vals) != 1 {
 		c.Bad(rule, key+" Validate", fn.Pos(), "expected exactly one Claims.Validate call, found %d", len(vals))
 		return facts
 	}
-	val := vals[0]
-	if a, ok := loadAddr(recvOf(val)); !ok || a != standard {
+	valS := vals[0]
+	val := valS.call
+	vrecv := c.upIn(valS, recvOf(val))
+	if a, ok := loadAddr(vrecv); !ok || a != ssa.Value(standard) {
 		c.Bad(rule, key+" Validate.recv", val.Pos(), "Validate is not applied to the claims filled by the verified Claims call")
-	} else if !dominatesInstr(cl.(ssa.Instruction), recvOf(val).(ssa.Instruction)) {
+	} else if !c.before(fn, clS, vrecv.(ssa.Instruction)) {
 		c.Bad(rule, key+" Validate.recv", val.Pos(), "the claims are read for validation before the verifying Claims call filled them")
 	} else {
 		c.OK(rule, key+" Validate.recv", val.Pos(), "validates the verified standard claims, read after Claims")
 	}
-	iss, now, _, ok := expectedLiteral(arg(val, 0))
+	iss, now, _, ok := c.expectedLiteralR(valS, arg(val, 0))
 	if !ok {
 		c.Undecided(rule, key+" Validate.expected", val.Pos(), "jwt.Expected argument is not a local literal")
 	} else {
@@ -148,12 +152,13 @@ func c02VerifierFacts(c *Ctx, rule string, report bool) paaVerifierFacts {
 	}
 
 	// step 4: OIDCProvider.UserInfo(ctx, TokenSource(ctx, &oauth2.Token{AccessToken: custom.AccessToken}))
-	uis := callsTo(fn, "(*github.com/coreos/go-oidc/v3/oidc.Provider).UserInfo")
+	uis := c.findSteps(fn, "(*github.com/coreos/go-oidc/v3/oidc.Provider).UserInfo")
 	if len(uis) != 1 {
 		c.Bad(rule, key+" UserInfo", fn.Pos(), "expected exactly one OIDCProvider.UserInfo call, found %d", len(uis))
 		return facts
 	}
-	ui := uis[0]
+	uiS := uis[0]
+	ui := uiS.call
 	if !isLoadOfGlobal(recvOf(ui), provider) {
 		c.Bad(rule, key+" UserInfo.recv", ui.Pos(), "UserInfo is not called on security.OIDCProvider")
 	} else {
@@ -164,8 +169,9 @@ func c02VerifierFacts(c *Ctx, rule string, report bool) paaVerifierFacts {
 		if tokAlloc, ok := arg(ts, 1).(*ssa.Alloc); ok {
 			st := structFieldStores(tokAlloc)
 			if vs := st["AccessToken"]; len(vs) == 1 {
-				if b, f, ok := fieldLoad(vs[0]); ok && f.Name() == "AccessToken" && baseAlloc(b) == custom {
-					if dominatesInstr(cl.(ssa.Instruction), vs[0].(ssa.Instruction)) {
+				tv := c.upIn(uiS, vs[0])
+				if b, f, ok := fieldLoad(tv); ok && f.Name() == "AccessToken" && baseAlloc(b) == custom {
+					if c.before(fn, clS, tv.(ssa.Instruction)) {
 						tokOK = true
 					}
 				}
@@ -181,10 +187,10 @@ func c02VerifierFacts(c *Ctx, rule string, report bool) paaVerifierFacts {
 	// gating of every accepting exit
 	for i, e := range exits {
 		ek := key + " exit#" + itoa(i)
-		c.requireChecked(rule, ek+" parse", fn, e, parse, 1, "HS256 parse")
-		c.requireChecked(rule, ek+" mac", fn, e, cl, 0, "MAC verification")
-		c.requireChecked(rule, ek+" validate", fn, e, val, 0, "issuer/expiry validation")
-		c.requireChecked(rule, ek+" userinfo", fn, e, ui, 1, "IdP UserInfo")
+		c.requireStep(rule, ek+" parse", fn, e, parseS, 1, "HS256 parse")
+		c.requireStep(rule, ek+" mac", fn, e, clS, 0, "MAC verification")
+		c.requireStep(rule, ek+" validate", fn, e, valS, 0, "issuer/expiry validation")
+		c.requireStep(rule, ek+" userinfo", fn, e, uiS, 1, "IdP UserInfo")
 	}
 
 	// what the accepted cookie binds: stores into the tunnel come from the verified claims
@@ -209,7 +215,7 @@ func c02VerifierFacts(c *Ctx, rule string, report bool) paaVerifierFacts {
 			return
 		}
 		b, sf, ok := fieldLoad(s.Val)
-		if ok && sf.Name() == want && baseAlloc(b) == custom && dominatesInstr(cl.(ssa.Instruction), s) {
+		if ok && sf.Name() == want && baseAlloc(b) == custom && c.before(fn, clS, s) {
 			c.OK(rule, key+" bind."+f.Name(), s.Pos(), "Tunnel.%s = verified claim %s", f.Name(), want)
 		} else {
 			c.Bad(rule, key+" bind."+f.Name(), s.Pos(), "Tunnel.%s is not set from the verified claim %s", f.Name(), want)
